@@ -697,6 +697,25 @@ func genC20(g *Gen, tier string, emit func(op string, args ...string)) {
 	emit("chain", "0+1,2+0", "V:41:1:n:n:1:1,v:61:62:1", "V:42:2:n:n")
 	emit("chain", "0+1,0+2,3+4", "V:41:1:n:n:1:0,a:61:1:1", "V:41:1:n:n,a:62:2:1", "V:41:1:n:n,a:63:3:1")
 
+	// ---- OIDs that would collide under a packed / truncated / length-insensitive comparison
+	// (format a:<name hex>:<dotted oid>:<type>); distinct names, distinct OIDs: every pair must merge
+	{
+		oids := []string{"1.2", "258", "0.5", "5", "1.0", "256", "255.255", "65535", "1.2.3", "66051", "513", "2.1", "1", "1.0.0", "0.1", "4294967297", "1.1", "257", "16777217"}
+		for i, x := range oids {
+			for j, y := range oids {
+				if i >= j {
+					continue
+				}
+				emit("merge", "a:61:"+x+":1", "a:62:"+y+":1", "1")
+				emit("merge", "V:41:1:n:n,a:61:"+x+":1", "V:41:1:n:n,a:62:"+y+":1", "2")
+			}
+		}
+		// vendor formats must survive in the combined entry
+		for _, f := range []string{"2:1", "4:0", "1:2", "4:2", "2:0"} {
+			emit("chain", "0+1,2+0", "V:41:1:"+f+",a:61:1:1", "V:41:1:"+f+",a:62:2:1")
+		}
+	}
+
 	// ---- exhaustive small scope, part 1: top-level attributes only
 	topAlpha := []gAttr{
 		{name: "a", oid: []int{1}, typ: 1}, {name: "a", oid: []int{2}, typ: 1},
